@@ -97,7 +97,8 @@ pub fn reinsert(constr: &mut Constraints, constraint: &Constraint, total: usize)
         "({}={}) ",
         constraint.parent.pos.start, constraint.child.pos.start
     );
-    let count = format!("[reinserting {}\\{}] ", total - constr.len(), total);
+    let count = total.saturating_sub(constr.len());
+    let count = format!("[reinserting {count}\\{total}] ");
     trace!("{:width$}{}{}", pos, count, constraint, width = 17);
 
     constr.reinsert(constraint)?;
